@@ -111,6 +111,35 @@ class Model:
         self._reach[start] = seen
         return seen
 
+    def reach_calls(self, start):
+        """bodies executed as part of running `start` itself: direct calls to
+        crate-local functions and the coroutine of a called async fn -- not
+        closures that `start` merely creates and hands to an adaptor."""
+        key = ("calls", start)
+        if key in self._reach:
+            return self._reach[key]
+        seen = set()
+        st = [start]
+        while st:
+            x = st.pop()
+            if x in seen or x not in self.fb.bodies:
+                continue
+            seen.add(x)
+            b = self.fb.bodies[x]
+            for bb, t in b.calls():
+                c = t.get("callee")
+                if not c:
+                    continue
+                for pth in (c["path"], (c.get("resolved") or {}).get("path") if isinstance(c.get("resolved"), dict) else None):
+                    if pth in self.fb.bodies:
+                        st.append(pth)
+                        co = pth + "::{closure#0}"
+                        if co in self.fb.bodies and self.fb.bodies[co].kind == "coroutine" and self.fb.bodies[co].parent == pth \
+                                and "Future" in (self.fb.fns.get(pth, {}).get("output", {}).get("s", "")):
+                            st.append(co)
+        self._reach[key] = seen
+        return seen
+
     def reach_bodies(self, start):
         return [self.fb.bodies[i] for i in sorted(self.reach(start))]
 
